@@ -612,6 +612,24 @@ fn every_parser(acc: &mut Acc, s: &str) {
         p!("NaiveDateTime::parse_and_remainder", NaiveDateTime::parse_and_remainder(s, fmt).ok().map(|x| x.0));
         p!("DateTime::parse_and_remainder", DateTime::parse_and_remainder(s, fmt).ok().map(|x| x.0));
     }
+    // the item-level reader, with borrowed and with owned items (formats that carry literal text, also multi-byte)
+    static OWNED: std::sync::OnceLock<Vec<Vec<chrono::format::Item<'static>>>> = std::sync::OnceLock::new();
+    const LIT_FMTS: [&str; 6] = ["ab%Y", "\u{e9}%d", "%Y\u{5e74}%m", "a%%b%j", "%Y-%m-%dT%H:%M:%S%z", "1 %H"];
+    let owned = OWNED.get_or_init(|| LIT_FMTS.iter().map(|f| StrftimeItems::new(f).parse_to_owned().unwrap()).collect());
+    for (k, fmt) in LIT_FMTS.iter().enumerate() {
+        p!("format::parse (owned items)", {
+            let mut pa = Parsed::new();
+            chrono::format::parse(&mut pa, s, owned[k].iter()).ok().map(|_| ())
+        });
+        p!("format::parse (borrowed items)", {
+            let mut pa = Parsed::new();
+            chrono::format::parse(&mut pa, s, StrftimeItems::new(fmt)).ok().map(|_| ())
+        });
+        p!("format::parse_and_remainder (owned items)", {
+            let mut pa = Parsed::new();
+            chrono::format::parse_and_remainder(&mut pa, s, owned[k].iter()).ok().map(|_| ())
+        });
+    }
     leave();
     if any {
         acc.hit(STR_ACC);
